@@ -767,7 +767,12 @@ func (c *Client) Start(msg *Message, handler Handler) error {
 		if err := c.a.Start(msg.TransactionID, d); err != nil {
 			// Not started: do not leave it in the table, where a later
 			// message with this ID would reach the handler.
-			c.release(t, msg.TransactionID)
+			if !c.release(t, msg.TransactionID) {
+				// A message with this ID (a late duplicate of an earlier
+				// response) reached the handler meanwhile: the caller has
+				// its outcome, an error would announce a second one.
+				return nil
+			}
 
 			return err
 		}
